@@ -96,6 +96,37 @@ fixed("C02","9843b33","pin:sta_lda_pair_flags","the peephole rule 'STA x / LDA x
 fixed("C02","f386ac4","pin:sta_lda_pair_flags","follow-up of 9843b33: the STA x / LDA x rule looked only one line ahead for the instruction consuming the flags; with further stores in between the reload was still removed")
 fixed("C01","732fd54","pin:short_array_rmw_incdec","'--sa[2]' / 'sa[Y]++' on a short (or pointer) array element selected by a constant or by Y updated the low byte only (family short_array_rmw; found again by C17's enumerated update forms on cartridge-RAM arrays)")
 fixed("C01","9d2cdcc","pin:short_array_rmw","'sa[1] >>= 1' / 'sa[Y] <<= 1' on a short array element selected by a constant or by Y shifted the low byte as an 8-bit value")
+fixed("C16","1b4eaf7","pin:macro_applied_to_its_own_name","'#define G(f) f(f)' then 'G(G)': the substitution loop never reached a fixed point (hang); now an error")
+fixed("C16","00432da","pin:address_offset_overflow","'r = (arr >> 8) + 16777216;', 'p = arr + 2147483647 + 1;': offsets on the address of a constant array overflowed (panic)")
+fixed("C16","00432da","pin:pointer_initialiser_offset_overflow","'const char *p = arr - -2147483648;' (also inside a pointer table) overflowed sign * offset (panic)")
+fixed("C16","0136e70","pin:insert_code_multibyte_character","--insert-code with a line holding multi-byte characters ('€') sliced the source inside a character (panic); also shifted the lines of later diagnostics after non-ASCII text in an included assembler file (C06)")
+fixed("C16","0136e70","pin:insert_code_truncation_inside_character","--insert-code truncated a line longer than 256 bytes in the middle of a multi-byte character (panic)")
+fixed("C18","0532010","C18:csleep_dummy_unprotected","csleep(3/5/9/10) emitted its STA/DEC DUMMY unprotected (the peephole pass could pair it away) and panicked on targets that declare no DUMMY")
+fixed("C16","f68e583","pin:header_including_itself","a header that includes itself recursed until the stack overflowed (abort)")
+fixed("C16","a65624f","pin:inline_function_calling_itself","an inline function calling itself pasted its unfinished body into itself; check_branches then hit unreachable!()")
+fixed("C02","26ee78c","pin:inc_of_aliased_element","'if (arr[X] == 3) { arr[1]++; if (arr[X] == 4) ...': INC arr+1 did not invalidate the cached 'arr,X', the second load was removed at -O1")
+fixed("C02","d2267d2","pin:compare_fold_symbolic_immediate","'X = arr; if (X != 144)': CPX #144 / BEQ folded away because the texts '#<arr' and '#144' differ, although the values may be equal")
+fixed("C01","b85f90b","pin:signed_return_value","'signed char f()': the return type's signedness was compared with the string \"return_signed\" and never recorded; 'if (f() < 2)' compared unsigned")
+fixed("C01","d7a111d","pin:return_postincrement","'return i++;' emitted the INC after the RTS (dead); and the caller took the flags left by the callee for those of the returned value ('t = f(); if (t)')")
+fixed("C01","d7a111d","pin:y_scratch_in_return","'return *p;' returned before Y was restored (formerly a recorded finding; repaired by the same commit: postponed work is emitted before the function is left)")
+fixed("C01","b0b4035","pin:carry_after_register_step","'r = a - b; X--; if (X >= 1)': carry_flag_ok survived DEX and the test branched on the subtraction's carry")
+fixed("C13","f3490e0","pin:duplicate_user_label","'l1: ...; l1: ...' was accepted and emitted .l1 twice")
+fixed("C13","f3490e0","pin:user_label_named_like_a_generated_one","a user label 'forend1' / 'fix1' collided with the label the code generator makes up")
+fixed("C04","54265b2","pin:memory_class_of_second_declarator","'char * const HI = 0x280, * const LO = 0x81;': LO inherited HI's memory class, 'STA LO' was counted 3 bytes and assembles to 2")
+fixed("C18","c9bbfed","pin:strobe_with_subscript","'strobe(REG[2]);' ignored the subscript and wrote REG")
+fixed("C18","bb09e77","pin:store_with_computed_subscript","'load(v); store(arr[i + 1]);' computed the subscript in A and stored i + 1")
+fixed("C01","344f088","pin:compound_assignment_on_pointer_element","'pp[1] += 255;' on 'char *pp[2]' updated the low byte only")
+fixed("C01","d495362","pin:flags_after_sty_indexed","'t[X] = a; t[X] = Y; if (t[X])' tested the flags of a (STY does not set flags, the record was kept)")
+fixed("C01","ba22ebf","pin:flags_after_16bit_increment","'w++; if (w < 0)' on a short used the N flag of the low-byte INC")
+fixed("C01","b6d2667","pin:truth_of_indexed_short_element","'if (s[X])' on an array of shorts tested the low byte only")
+fixed("C09","5427877","pin:quote_character_constant","the character constant '\"' was taken for the start of a string literal")
+fixed("C09","27b9453","pin:literal_sizes_in_pointer_table","string literals in a table of pointers were recorded with size = index in the table")
+fixed("C13","b70365a","pin:address_of_function_never_called","'p = f;' with f never called: f was not in the in-use set, 'LDA #<f' named a routine nobody emits")
+fixed("C01","3f12a13","pin:signed_array_element_variable_subscript","'s = sa[i];' (signed char array, variable subscript) zero-extended the element")
+fixed("C08","7967774","pin:parameter_named_like_a_macro","'#define x 5', '#define F(x) ((x)+1)': the parameter was replaced by the earlier macro when the body was stored, F(2) gave 6")
+fixed("C08","cc21c89","pin:body_names_a_later_macro","'#define FIRST SECOND', '#define SECOND 9': FIRST expanded to SECOND and stopped (only macros named in the original text were applied)")
+fixed("C08","b0f5f26","pin:tab_after_define","'#define<TAB>SEVEN<TAB>7' was refused (directive and operand were split at a blank only); same for #ifdef #ifndef #undef (also C11)")
+fixed("C07","56dc566","C07:numeric_condition_values","'#if X' with X = 2 was false and '#if X == 3' true: only the literal 1 counted as true and == compared truth values")
 fixed("C09","0bbcb57","pin:macro_parameter_in_character_constant","'#define CHK(x) ((x) == 'x')': the parameter was substituted inside the character constant of the body")
 
 # ---------------- recorded, not repaired (each has a pinned witness in harness/src/pins.rs and a
@@ -119,7 +150,6 @@ C01=[
  ("mixed_signedness_follows_left","signedness of 8-bit arithmetic follows the left operand: '(signed + unsigned) >> 6' shifts arithmetically"),
  ("wide_condition_arith","'if (s & s)' on shorts tests the low byte only"),
  ("nested_call_clobbers_static_params","'f(10, f(3, 1))': the inner call overwrites the outer call's already-stored first argument"),
- ("y_scratch_in_return","'return *p;' returns before Y is restored"),
  ("y_scratch_call_arg","'f(1, arr[l & 7])' pops the stack once too often"),
  ("y_scratch_with_call","'r = *p + f(2, 3)' pushes without popping (stack corrupted)"),
  ("deref_in_ternary","'c ? *p : k' restores Y from the scratch cell on the arm that never saved it"),
